@@ -1295,6 +1295,32 @@ impl FixedBitSet {
     pub open spec fn spec_contains(&self, i: int) -> bool { 0 <= i < self.bits@.len() && self.bits@[i] }
     pub fn contains(&self, bit: usize) -> (r: bool) ensures r == self.spec_contains(bit as int)
     { if bit < self.bits.len() { self.bits[bit] } else { false } }
+    /// ASSUMED (fixedbitset docs): a new set of `bits` bits, all clear
+    #[verifier::external_body]
+    pub fn with_capacity(bits: usize) -> (r: Self)
+        ensures r.bits@.len() == bits, forall|i: int| !(#[trigger] r.spec_contains(i))
+    { unimplemented!() }
+    /// ASSUMED (fixedbitset docs): sets bit `bit` to `enabled`; panics if `bit` is out of bounds
+    #[verifier::external_body]
+    pub fn set(&mut self, bit: usize, enabled: bool)
+        requires bit < old(self).bits@.len(),
+        ensures final(self).bits@ == old(self).bits@.update(bit as int, enabled),
+            forall|l: int| #[trigger] final(self).spec_contains(l) == (if l == bit as int { enabled } else { old(self).spec_contains(l) }),
+    { unimplemented!() }
+}
+/// stub of the `impl IntoIterator<Item = (VarNo, bool)>` argument of `eval_edge` (rule R10): `all()` is the sequence it
+/// yields, `done()` the prefix yielded so far (ASSUMED: std Iterator protocol)
+pub struct ArgIter { pub all: Ghost<Seq<(u32, bool)>>, pub done: Ghost<Seq<(u32, bool)>> }
+impl ArgIter {
+    pub open spec fn all(&self) -> Seq<(u32, bool)> { self.all@ }
+    pub open spec fn done(&self) -> Seq<(u32, bool)> { self.done@ }
+    #[verifier::external_body]
+    pub fn next(&mut self) -> (r: Option<(VarNo, bool)>)
+        ensures final(self).all() == old(self).all(),
+            r is None ==> old(self).done() == old(self).all() && final(self).done() == old(self).done(),
+            r is Some ==> old(self).done().len() < old(self).all().len() && r->Some_0 == old(self).all()[old(self).done().len() as int]
+                && final(self).done() == old(self).done().push(r->Some_0),
+    { unimplemented!() }
 }
 pub trait LevelView<E: Edge, N: InnerNode<E>> {
     spec fn level_no_spec(&self) -> u32;
@@ -1395,6 +1421,19 @@ pub struct SequentialRecursor;
 impl<M: Manager> Recursor<M> for SequentialRecursor {
     open spec fn switch_spec(self) -> bool { false }
     fn should_switch_to_sequential(self) -> bool { false }
+}
+/// stub of the multi-threaded recursor used by the `mt` wrappers.  ASSUMED: the generic apply functions meet their
+/// contracts also when run with it (they are PROVED with the sequential recursor's methods inlined, rule R5; the
+/// fork/join bodies of ParallelRecursor are not verified).  What the `__mt` units prove is the wrapper glue.
+#[derive(Clone, Copy)]
+pub struct ParallelRecursor { pub depth: u32 }
+impl ParallelRecursor {
+    #[verifier::external_body]
+    pub fn new<M: Manager>(manager: &M) -> (r: Self) { unimplemented!() }
+}
+impl<M: Manager> Recursor<M> for ParallelRecursor {
+    open spec fn switch_spec(self) -> bool { self.depth == 0 }
+    fn should_switch_to_sequential(self) -> bool { self.depth == 0 }
 }
 
 // ---------- items copied from the real crates ----------
@@ -1576,6 +1615,120 @@ pub broadcast proof fn lemma_cpopped_below(c: CE, u: int, m: int)
     }
 }
 pub broadcast group cpop_lemmas { lemma_cpopped, lemma_cpopped_below }
+// ---------- eval (C02): the assignment denoted by the `(variable, value)` pairs, last value wins ----------
+pub open spec fn all_false() -> Env { |l: int| false }
+pub open spec fn all_true() -> Env { |l: int| true }
+/// `base` overridden by the pairs in order; `m` maps variable numbers to levels
+pub open spec fn aenv(args: Seq<(u32, bool)>, m: spec_fn(int) -> int, base: Env) -> Env decreases args.len() {
+    if args.len() == 0 { base } else { upd(aenv(args.drop_last(), m, base), m(args.last().0 as int), args.last().1) }
+}
+pub open spec fn assigned(args: Seq<(u32, bool)>, m: spec_fn(int) -> int, l: int) -> bool {
+    exists|i: int| 0 <= i < args.len() && m((#[trigger] args[i]).0 as int) == l
+}
+/// the pairs give a value to every level below `n`
+pub open spec fn total(args: Seq<(u32, bool)>, m: spec_fn(int) -> int, n: int) -> bool {
+    forall|l: int| 0 <= l < n ==> #[trigger] assigned(args, m, l)
+}
+/// C02 "eval agrees with the node-by-node interpretation": under a total assignment the result is the value of the
+/// expanded diagram under that assignment (documented default for unassigned variables: false; irrelevant when total)
+pub open spec fn ceval_post(c: CE, args: Seq<(u32, bool)>, m: spec_fn(int) -> int, n: int, r: bool) -> bool {
+    total(args, m, n) ==> r == csem(c, aenv(args, m, all_false()))
+}
+pub broadcast proof fn lemma_aenv_push(s: Seq<(u32, bool)>, x: (u32, bool), m: spec_fn(int) -> int, base: Env)
+    ensures #[trigger] aenv(s.push(x), m, base) == upd(aenv(s, m, base), m(x.0 as int), x.1),
+{
+    assert(s.push(x).drop_last() =~= s);
+    assert(s.push(x).last() == x);
+}
+pub broadcast proof fn lemma_aenv_empty(m: spec_fn(int) -> int, base: Env)
+    ensures #[trigger] aenv(Seq::<(u32, bool)>::empty(), m, base) == base,
+{}
+pub proof fn lemma_aenv_base_irrelevant(args: Seq<(u32, bool)>, m: spec_fn(int) -> int, b1: Env, b2: Env, l: int, i: int)
+    requires 0 <= i < args.len(), m(args[i].0 as int) == l,
+    ensures aenv(args, m, b1)(l) == aenv(args, m, b2)(l),
+    decreases args.len(),
+{
+    if i < args.len() - 1 && m(args.last().0 as int) != l {
+        assert(args.drop_last()[i] == args[i]);
+        lemma_aenv_base_irrelevant(args.drop_last(), m, b1, b2, l, i);
+    }
+}
+pub open spec fn agree_below(e1: Env, e2: Env, n: int) -> bool { forall|i: int| 0 <= i < n ==> #[trigger] e1(i) == e2(i) }
+pub proof fn lemma_sem_agree_below(t: Tree, e1: Env, e2: Env, n: int)
+    requires below(t, n), agree_below(e1, e2, n),
+    ensures sem(t, e1) == sem(t, e2),
+    decreases t,
+{
+    match t {
+        Tree::Leaf(_) => {}
+        Tree::Inner(l, a, b) => { lemma_sem_agree_below(*a, e1, e2, n); lemma_sem_agree_below(*b, e1, e2, n); }
+    }
+}
+/// what the loop of `eval_edge` establishes (`ch` = the level -> decision map read off the bit set) implies ceval_post
+pub broadcast proof fn lemma_ceval_post(c: CE, args: Seq<(u32, bool)>, m: spec_fn(int) -> int, n: int, ch: Env, r: bool)
+    requires cbelow(c, n), forall|l: int| #[trigger] ch(l) == aenv(args, m, all_true())(l), r == csem(c, ch),
+    ensures #[trigger] ceval_post(c, args, m, n, r), #[trigger] csem(c, ch) == r,
+{
+    if total(args, m, n) {
+        let e = aenv(args, m, all_false());
+        assert(agree_below(ch, e, n)) by {
+            assert forall|l: int| 0 <= l < n implies #[trigger] ch(l) == e(l) by {
+                assert(assigned(args, m, l));
+                let i = choose|i: int| 0 <= i < args.len() && m((#[trigger] args[i]).0 as int) == l;
+                lemma_aenv_base_irrelevant(args, m, all_true(), all_false(), l, i);
+            }
+        }
+        lemma_tv_below(c, n);
+        lemma_sem_agree_below(tv(c), ch, e, n);
+        reveal(csem);
+    }
+}
+pub broadcast group eval_lemmas { lemma_aenv_push, lemma_aenv_empty, lemma_ceval_post }
+/// variable number -> level map of a manager as a spec function
+pub open spec fn vl<M: Manager>(m: &M) -> spec_fn(int) -> int { |v: int| m.var_to_level_spec(v) }
+/// then / else child EDGE of the node an edge points to
+pub open spec fn cthen(c: CE) -> CE { match c.node { CN::Inner(_, t, _) => *t, CN::One => c } }
+pub open spec fn celse(c: CE) -> CE { match c.node { CN::Inner(_, _, e) => *e, CN::One => c } }
+// ---------- uniform cube picking (C13 "selects models without bias"): float / RNG stubs ----------
+/// stub of `f64` as used by `pick_cube_uniform_edge` (ASSUMED: F64 counts are exact, division is an uninterpreted function
+/// `fdiv` on reals; rounding, NaN and infinities are not modelled)
+#[derive(Clone, Copy)]
+pub struct Fl { pub v: Ghost<real> }
+impl Fl { pub open spec fn rv(self) -> real { self.v@ } }
+pub uninterp spec fn fdiv(a: real, b: real) -> real;
+impl std::ops::Add for Fl { type Output = Fl; #[verifier::external_body] fn add(self, rhs: Fl) -> (r: Fl) { unimplemented!() } }
+impl vstd::std_specs::ops::AddSpecImpl for Fl {
+    open spec fn obeys_add_spec() -> bool { true }
+    open spec fn add_req(self, rhs: Fl) -> bool { true }
+    open spec fn add_spec(self, rhs: Fl) -> Fl { Fl { v: Ghost(self.rv() + rhs.rv()) } }
+}
+impl std::ops::Div for Fl { type Output = Fl; #[verifier::external_body] fn div(self, rhs: Fl) -> (r: Fl) { unimplemented!() } }
+impl vstd::std_specs::ops::DivSpecImpl for Fl {
+    open spec fn obeys_div_spec() -> bool { true }
+    open spec fn div_req(self, rhs: Fl) -> bool { true }
+    open spec fn div_spec(self, rhs: Fl) -> Fl { Fl { v: Ghost(fdiv(self.rv(), rhs.rv())) } }
+}
+impl PartialEq for Fl { #[verifier::external_body] fn eq(&self, o: &Fl) -> (b: bool) { unimplemented!() } }
+impl PartialOrd for Fl { #[verifier::external_body] fn partial_cmp(&self, o: &Fl) -> (r: Option<core::cmp::Ordering>) { unimplemented!() } }
+impl vstd::std_specs::cmp::PartialEqSpecImpl for Fl {
+    open spec fn obeys_eq_spec() -> bool { true }
+    open spec fn eq_spec(&self, o: &Fl) -> bool { self.rv() == o.rv() }
+}
+impl vstd::std_specs::cmp::PartialOrdSpecImpl for Fl {
+    open spec fn obeys_partial_cmp_spec() -> bool { true }
+    open spec fn partial_cmp_spec(&self, o: &Fl) -> Option<core::cmp::Ordering> {
+        if self.rv() < o.rv() { Some(core::cmp::Ordering::Less) } else if self.rv() == o.rv() { Some(core::cmp::Ordering::Equal) } else { Some(core::cmp::Ordering::Greater) }
+    }
+}
+/// stub of `oxidd_core::util::num::F64` (newtype around f64)
+pub struct F64(pub Fl);
+/// stub of `oxidd_core::util::Rng`: `draw()` is the next uniform sample in [0, 1)
+pub struct Rng { pub next: Ghost<real> }
+impl Rng {
+    pub open spec fn draw(&self) -> real { self.next@ }
+    #[verifier::external_body]
+    pub fn generate_f64(&mut self) -> (r: Fl) ensures r.rv() == old(self).draw(), 0real <= r.rv() < 1real { unimplemented!() }
+}
 mod lib_rs {
 use super::*;
 broadcast use ce_core;
@@ -1731,9 +1884,27 @@ where M: Manager<EdgeTag = EdgeTag, Terminal = BCDDTerminal> + HasApplyCache<M, 
     ensures res is Ok ==> okc(res->Ok_0.cv(), manager.num_levels_spec())
         && forall|env: Env| #[trigger] csem(res->Ok_0.cv(), env) == prop_and(csem(lhs.cv(), env), csem(rhs.cv(), env)),
 //@end
+//@fn file=crates/oxidd-rules-bdd/src/complement_edge/apply_rec.rs path=mod:mt/impl:BooleanFunction~for~BCDDFunctionMT<F>/fn:and_edge name=and_edge__mt props=C02
+//@header
+fn and_edge__mt<M>(manager: &M, lhs: &M::Edge, rhs: &M::Edge) -> (res: AllocResult<M::Edge>)
+where M: Manager<EdgeTag = EdgeTag, Terminal = BCDDTerminal> + HasApplyCache<M, BCDDOp>, M::InnerNode: HasLevel,
+//@spec
+    requires edge_ok::<M::Edge>(), okc(lhs.cv(), manager.num_levels_spec()), okc(rhs.cv(), manager.num_levels_spec()),
+    ensures res is Ok ==> okc(res->Ok_0.cv(), manager.num_levels_spec())
+        && forall|env: Env| #[trigger] csem(res->Ok_0.cv(), env) == prop_and(csem(lhs.cv(), env), csem(rhs.cv(), env)),
+//@end
 //@fn file=crates/oxidd-rules-bdd/src/complement_edge/apply_rec.rs path=impl:BooleanFunction~for~BCDDFunction<F>/fn:or_edge selfcall=Self::> props=C02
 //@header
 fn or_edge<M>(manager: &M, lhs: &M::Edge, rhs: &M::Edge) -> (res: AllocResult<M::Edge>)
+where M: Manager<EdgeTag = EdgeTag, Terminal = BCDDTerminal> + HasApplyCache<M, BCDDOp>, M::InnerNode: HasLevel,
+//@spec
+    requires edge_ok::<M::Edge>(), okc(lhs.cv(), manager.num_levels_spec()), okc(rhs.cv(), manager.num_levels_spec()),
+    ensures res is Ok ==> okc(res->Ok_0.cv(), manager.num_levels_spec())
+        && forall|env: Env| #[trigger] csem(res->Ok_0.cv(), env) == prop_or(csem(lhs.cv(), env), csem(rhs.cv(), env)),
+//@end
+//@fn file=crates/oxidd-rules-bdd/src/complement_edge/apply_rec.rs path=mod:mt/impl:BooleanFunction~for~BCDDFunctionMT<F>/fn:or_edge name=or_edge__mt props=C02
+//@header
+fn or_edge__mt<M>(manager: &M, lhs: &M::Edge, rhs: &M::Edge) -> (res: AllocResult<M::Edge>)
 where M: Manager<EdgeTag = EdgeTag, Terminal = BCDDTerminal> + HasApplyCache<M, BCDDOp>, M::InnerNode: HasLevel,
 //@spec
     requires edge_ok::<M::Edge>(), okc(lhs.cv(), manager.num_levels_spec()), okc(rhs.cv(), manager.num_levels_spec()),
@@ -1749,9 +1920,27 @@ where M: Manager<EdgeTag = EdgeTag, Terminal = BCDDTerminal> + HasApplyCache<M, 
     ensures res is Ok ==> okc(res->Ok_0.cv(), manager.num_levels_spec())
         && forall|env: Env| #[trigger] csem(res->Ok_0.cv(), env) == prop_nand(csem(lhs.cv(), env), csem(rhs.cv(), env)),
 //@end
+//@fn file=crates/oxidd-rules-bdd/src/complement_edge/apply_rec.rs path=mod:mt/impl:BooleanFunction~for~BCDDFunctionMT<F>/fn:nand_edge name=nand_edge__mt props=C02
+//@header
+fn nand_edge__mt<M>(manager: &M, lhs: &M::Edge, rhs: &M::Edge) -> (res: AllocResult<M::Edge>)
+where M: Manager<EdgeTag = EdgeTag, Terminal = BCDDTerminal> + HasApplyCache<M, BCDDOp>, M::InnerNode: HasLevel,
+//@spec
+    requires edge_ok::<M::Edge>(), okc(lhs.cv(), manager.num_levels_spec()), okc(rhs.cv(), manager.num_levels_spec()),
+    ensures res is Ok ==> okc(res->Ok_0.cv(), manager.num_levels_spec())
+        && forall|env: Env| #[trigger] csem(res->Ok_0.cv(), env) == prop_nand(csem(lhs.cv(), env), csem(rhs.cv(), env)),
+//@end
 //@fn file=crates/oxidd-rules-bdd/src/complement_edge/apply_rec.rs path=impl:BooleanFunction~for~BCDDFunction<F>/fn:nor_edge props=C02
 //@header
 fn nor_edge<M>(manager: &M, lhs: &M::Edge, rhs: &M::Edge) -> (res: AllocResult<M::Edge>)
+where M: Manager<EdgeTag = EdgeTag, Terminal = BCDDTerminal> + HasApplyCache<M, BCDDOp>, M::InnerNode: HasLevel,
+//@spec
+    requires edge_ok::<M::Edge>(), okc(lhs.cv(), manager.num_levels_spec()), okc(rhs.cv(), manager.num_levels_spec()),
+    ensures res is Ok ==> okc(res->Ok_0.cv(), manager.num_levels_spec())
+        && forall|env: Env| #[trigger] csem(res->Ok_0.cv(), env) == prop_nor(csem(lhs.cv(), env), csem(rhs.cv(), env)),
+//@end
+//@fn file=crates/oxidd-rules-bdd/src/complement_edge/apply_rec.rs path=mod:mt/impl:BooleanFunction~for~BCDDFunctionMT<F>/fn:nor_edge name=nor_edge__mt props=C02
+//@header
+fn nor_edge__mt<M>(manager: &M, lhs: &M::Edge, rhs: &M::Edge) -> (res: AllocResult<M::Edge>)
 where M: Manager<EdgeTag = EdgeTag, Terminal = BCDDTerminal> + HasApplyCache<M, BCDDOp>, M::InnerNode: HasLevel,
 //@spec
     requires edge_ok::<M::Edge>(), okc(lhs.cv(), manager.num_levels_spec()), okc(rhs.cv(), manager.num_levels_spec()),
@@ -1767,9 +1956,27 @@ where M: Manager<EdgeTag = EdgeTag, Terminal = BCDDTerminal> + HasApplyCache<M, 
     ensures res is Ok ==> okc(res->Ok_0.cv(), manager.num_levels_spec())
         && forall|env: Env| #[trigger] csem(res->Ok_0.cv(), env) == prop_xor(csem(lhs.cv(), env), csem(rhs.cv(), env)),
 //@end
+//@fn file=crates/oxidd-rules-bdd/src/complement_edge/apply_rec.rs path=mod:mt/impl:BooleanFunction~for~BCDDFunctionMT<F>/fn:xor_edge name=xor_edge__mt props=C02
+//@header
+fn xor_edge__mt<M>(manager: &M, lhs: &M::Edge, rhs: &M::Edge) -> (res: AllocResult<M::Edge>)
+where M: Manager<EdgeTag = EdgeTag, Terminal = BCDDTerminal> + HasApplyCache<M, BCDDOp>, M::InnerNode: HasLevel,
+//@spec
+    requires edge_ok::<M::Edge>(), okc(lhs.cv(), manager.num_levels_spec()), okc(rhs.cv(), manager.num_levels_spec()),
+    ensures res is Ok ==> okc(res->Ok_0.cv(), manager.num_levels_spec())
+        && forall|env: Env| #[trigger] csem(res->Ok_0.cv(), env) == prop_xor(csem(lhs.cv(), env), csem(rhs.cv(), env)),
+//@end
 //@fn file=crates/oxidd-rules-bdd/src/complement_edge/apply_rec.rs path=impl:BooleanFunction~for~BCDDFunction<F>/fn:equiv_edge selfcall=Self::> props=C02
 //@header
 fn equiv_edge<M>(manager: &M, lhs: &M::Edge, rhs: &M::Edge) -> (res: AllocResult<M::Edge>)
+where M: Manager<EdgeTag = EdgeTag, Terminal = BCDDTerminal> + HasApplyCache<M, BCDDOp>, M::InnerNode: HasLevel,
+//@spec
+    requires edge_ok::<M::Edge>(), okc(lhs.cv(), manager.num_levels_spec()), okc(rhs.cv(), manager.num_levels_spec()),
+    ensures res is Ok ==> okc(res->Ok_0.cv(), manager.num_levels_spec())
+        && forall|env: Env| #[trigger] csem(res->Ok_0.cv(), env) == prop_equiv(csem(lhs.cv(), env), csem(rhs.cv(), env)),
+//@end
+//@fn file=crates/oxidd-rules-bdd/src/complement_edge/apply_rec.rs path=mod:mt/impl:BooleanFunction~for~BCDDFunctionMT<F>/fn:equiv_edge name=equiv_edge__mt props=C02
+//@header
+fn equiv_edge__mt<M>(manager: &M, lhs: &M::Edge, rhs: &M::Edge) -> (res: AllocResult<M::Edge>)
 where M: Manager<EdgeTag = EdgeTag, Terminal = BCDDTerminal> + HasApplyCache<M, BCDDOp>, M::InnerNode: HasLevel,
 //@spec
     requires edge_ok::<M::Edge>(), okc(lhs.cv(), manager.num_levels_spec()), okc(rhs.cv(), manager.num_levels_spec()),
@@ -1785,9 +1992,27 @@ where M: Manager<EdgeTag = EdgeTag, Terminal = BCDDTerminal> + HasApplyCache<M, 
     ensures res is Ok ==> okc(res->Ok_0.cv(), manager.num_levels_spec())
         && forall|env: Env| #[trigger] csem(res->Ok_0.cv(), env) == prop_imp(csem(lhs.cv(), env), csem(rhs.cv(), env)),
 //@end
+//@fn file=crates/oxidd-rules-bdd/src/complement_edge/apply_rec.rs path=mod:mt/impl:BooleanFunction~for~BCDDFunctionMT<F>/fn:imp_edge name=imp_edge__mt props=C02
+//@header
+fn imp_edge__mt<M>(manager: &M, lhs: &M::Edge, rhs: &M::Edge) -> (res: AllocResult<M::Edge>)
+where M: Manager<EdgeTag = EdgeTag, Terminal = BCDDTerminal> + HasApplyCache<M, BCDDOp>, M::InnerNode: HasLevel,
+//@spec
+    requires edge_ok::<M::Edge>(), okc(lhs.cv(), manager.num_levels_spec()), okc(rhs.cv(), manager.num_levels_spec()),
+    ensures res is Ok ==> okc(res->Ok_0.cv(), manager.num_levels_spec())
+        && forall|env: Env| #[trigger] csem(res->Ok_0.cv(), env) == prop_imp(csem(lhs.cv(), env), csem(rhs.cv(), env)),
+//@end
 //@fn file=crates/oxidd-rules-bdd/src/complement_edge/apply_rec.rs path=impl:BooleanFunction~for~BCDDFunction<F>/fn:imp_strict_edge props=C02
 //@header
 fn imp_strict_edge<M>(manager: &M, lhs: &M::Edge, rhs: &M::Edge) -> (res: AllocResult<M::Edge>)
+where M: Manager<EdgeTag = EdgeTag, Terminal = BCDDTerminal> + HasApplyCache<M, BCDDOp>, M::InnerNode: HasLevel,
+//@spec
+    requires edge_ok::<M::Edge>(), okc(lhs.cv(), manager.num_levels_spec()), okc(rhs.cv(), manager.num_levels_spec()),
+    ensures res is Ok ==> okc(res->Ok_0.cv(), manager.num_levels_spec())
+        && forall|env: Env| #[trigger] csem(res->Ok_0.cv(), env) == prop_imp_strict(csem(lhs.cv(), env), csem(rhs.cv(), env)),
+//@end
+//@fn file=crates/oxidd-rules-bdd/src/complement_edge/apply_rec.rs path=mod:mt/impl:BooleanFunction~for~BCDDFunctionMT<F>/fn:imp_strict_edge name=imp_strict_edge__mt props=C02
+//@header
+fn imp_strict_edge__mt<M>(manager: &M, lhs: &M::Edge, rhs: &M::Edge) -> (res: AllocResult<M::Edge>)
 where M: Manager<EdgeTag = EdgeTag, Terminal = BCDDTerminal> + HasApplyCache<M, BCDDOp>, M::InnerNode: HasLevel,
 //@spec
     requires edge_ok::<M::Edge>(), okc(lhs.cv(), manager.num_levels_spec()), okc(rhs.cv(), manager.num_levels_spec()),
@@ -1803,9 +2028,27 @@ where M: Manager<EdgeTag = EdgeTag, Terminal = BCDDTerminal> + HasApplyCache<M, 
     ensures res is Ok ==> okc(res->Ok_0.cv(), manager.num_levels_spec())
         && forall|env: Env| #[trigger] csem(res->Ok_0.cv(), env) == !csem(edge.cv(), env),
 //@end
+//@fn file=crates/oxidd-rules-bdd/src/complement_edge/apply_rec.rs path=mod:mt/impl:BooleanFunction~for~BCDDFunctionMT<F>/fn:not_edge name=not_edge__mt props=C02
+//@header
+fn not_edge__mt<M>(manager: &M, edge: &M::Edge) -> (res: AllocResult<M::Edge>)
+where M: Manager<EdgeTag = EdgeTag, Terminal = BCDDTerminal> + HasApplyCache<M, BCDDOp>, M::InnerNode: HasLevel,
+//@spec
+    requires okc(edge.cv(), manager.num_levels_spec()),
+    ensures res is Ok ==> okc(res->Ok_0.cv(), manager.num_levels_spec())
+        && forall|env: Env| #[trigger] csem(res->Ok_0.cv(), env) == !csem(edge.cv(), env),
+//@end
 //@fn file=crates/oxidd-rules-bdd/src/complement_edge/apply_rec.rs path=impl:BooleanFunction~for~BCDDFunction<F>/fn:not_edge_owned props=C02
 //@header
 fn not_edge_owned<M>(_manager: &M, edge: M::Edge) -> (res: AllocResult<M::Edge>)
+where M: Manager<EdgeTag = EdgeTag, Terminal = BCDDTerminal> + HasApplyCache<M, BCDDOp>, M::InnerNode: HasLevel,
+//@spec
+    requires okc(edge.cv(), _manager.num_levels_spec()),
+    ensures res is Ok ==> okc(res->Ok_0.cv(), _manager.num_levels_spec())
+        && forall|env: Env| #[trigger] csem(res->Ok_0.cv(), env) == !csem(edge.cv(), env),
+//@end
+//@fn file=crates/oxidd-rules-bdd/src/complement_edge/apply_rec.rs path=mod:mt/impl:BooleanFunction~for~BCDDFunctionMT<F>/fn:not_edge_owned name=not_edge_owned__mt props=C02
+//@header
+fn not_edge_owned__mt<M>(_manager: &M, edge: M::Edge) -> (res: AllocResult<M::Edge>)
 where M: Manager<EdgeTag = EdgeTag, Terminal = BCDDTerminal> + HasApplyCache<M, BCDDOp>, M::InnerNode: HasLevel,
 //@spec
     requires okc(edge.cv(), _manager.num_levels_spec()),
@@ -1821,9 +2064,27 @@ where M: Manager<EdgeTag = EdgeTag, Terminal = BCDDTerminal> + HasApplyCache<M, 
     ensures res is Ok ==> okc(res->Ok_0.cv(), manager.num_levels_spec())
         && forall|env: Env| #[trigger] csem(res->Ok_0.cv(), env) == (if csem(if_edge.cv(), env) { csem(then_edge.cv(), env) } else { csem(else_edge.cv(), env) }),
 //@end
+//@fn file=crates/oxidd-rules-bdd/src/complement_edge/apply_rec.rs path=mod:mt/impl:BooleanFunction~for~BCDDFunctionMT<F>/fn:ite_edge name=ite_edge__mt props=C02
+//@header
+fn ite_edge__mt<M>(manager: &M, f: &M::Edge, g: &M::Edge, h: &M::Edge) -> (res: AllocResult<M::Edge>)
+where M: Manager<EdgeTag = EdgeTag, Terminal = BCDDTerminal> + HasApplyCache<M, BCDDOp>, M::InnerNode: HasLevel,
+//@spec
+    requires edge_ok::<M::Edge>(), okc(f.cv(), manager.num_levels_spec()), okc(g.cv(), manager.num_levels_spec()), okc(h.cv(), manager.num_levels_spec()),
+    ensures res is Ok ==> okc(res->Ok_0.cv(), manager.num_levels_spec())
+        && forall|env: Env| #[trigger] csem(res->Ok_0.cv(), env) == (if csem(f.cv(), env) { csem(g.cv(), env) } else { csem(h.cv(), env) }),
+//@end
 //@fn file=crates/oxidd-rules-bdd/src/complement_edge/apply_rec.rs path=impl:BooleanFunction~for~BCDDFunction<F>/fn:var_edge props=C02,C03
 //@header
 fn var_edge<M>(manager: &M, var: VarNo) -> (res: AllocResult<M::Edge>)
+where M: Manager<EdgeTag = EdgeTag, Terminal = BCDDTerminal> + HasApplyCache<M, BCDDOp>, M::InnerNode: HasLevel,
+//@spec
+    requires (var as int) < manager.num_levels_spec(),
+    ensures res is Ok ==> okc(res->Ok_0.cv(), manager.num_levels_spec())
+        && forall|env: Env| #[trigger] csem(res->Ok_0.cv(), env) == env(manager.var_to_level_spec(var as int)),
+//@end
+//@fn file=crates/oxidd-rules-bdd/src/complement_edge/apply_rec.rs path=mod:mt/impl:BooleanFunction~for~BCDDFunctionMT<F>/fn:var_edge name=var_edge__mt props=C02,C03 subst_text=BCDDFunction::<F>::::=
+//@header
+fn var_edge__mt<M>(manager: &M, var: VarNo) -> (res: AllocResult<M::Edge>)
 where M: Manager<EdgeTag = EdgeTag, Terminal = BCDDTerminal> + HasApplyCache<M, BCDDOp>, M::InnerNode: HasLevel,
 //@spec
     requires (var as int) < manager.num_levels_spec(),
@@ -1837,6 +2098,13 @@ where M: Manager<EdgeTag = EdgeTag, Terminal = BCDDTerminal> + HasApplyCache<M, 
 //@spec
     ensures res.cv() == ct(true), forall|env: Env| csem(res.cv(), env) == false,
 //@end
+//@fn file=crates/oxidd-rules-bdd/src/complement_edge/apply_rec.rs path=mod:mt/impl:BooleanFunction~for~BCDDFunctionMT<F>/fn:f_edge name=f_edge__mt props=C02
+//@header
+fn f_edge__mt<M>(manager: &M) -> (res: M::Edge)
+where M: Manager<EdgeTag = EdgeTag, Terminal = BCDDTerminal> + HasApplyCache<M, BCDDOp>, M::InnerNode: HasLevel,
+//@spec
+    ensures res.cv() == ct(true), forall|env: Env| csem(res.cv(), env) == false,
+//@end
 //@fn file=crates/oxidd-rules-bdd/src/complement_edge/apply_rec.rs path=impl:BooleanFunction~for~BCDDFunction<F>/fn:t_edge props=C02
 //@header
 fn t_edge<M>(manager: &M) -> (res: M::Edge)
@@ -1844,13 +2112,54 @@ where M: Manager<EdgeTag = EdgeTag, Terminal = BCDDTerminal> + HasApplyCache<M, 
 //@spec
     ensures res.cv() == ct(false), forall|env: Env| csem(res.cv(), env) == true,
 //@end
+//@fn file=crates/oxidd-rules-bdd/src/complement_edge/apply_rec.rs path=mod:mt/impl:BooleanFunction~for~BCDDFunctionMT<F>/fn:t_edge name=t_edge__mt props=C02
+//@header
+fn t_edge__mt<M>(manager: &M) -> (res: M::Edge)
+where M: Manager<EdgeTag = EdgeTag, Terminal = BCDDTerminal> + HasApplyCache<M, BCDDOp>, M::InnerNode: HasLevel,
+//@spec
+    ensures res.cv() == ct(false), forall|env: Env| csem(res.cv(), env) == true,
+//@end
+} // mod apply_rec
+mod apply_rec_e {
+use super::*;
+broadcast use {ce_core, eval_lemmas};
 //@fn file=crates/oxidd-rules-bdd/src/complement_edge/apply_rec.rs path=impl:BooleanFunction~for~BCDDFunction<F>/fn:eval_edge/fn:inner rename=eval_edge__inner ret=r props=C02
 //@spec
     requires cwf(edge.cv()),
     ensures r == (complement != csem(edge.cv(), |l: int| !choices.spec_contains(l))),
     decreases u32::MAX as int - ctop(edge.cv()),
 //@end
-} // mod apply_rec
+//@fn file=crates/oxidd-rules-bdd/src/complement_edge/apply_rec.rs path=impl:BooleanFunction~for~BCDDFunction<F>/fn:eval_edge hoist=inner>eval_edge__inner forinv=0 ret=r props=C02
+//@header
+fn eval_edge<M>(manager: &M, edge: &M::Edge, args: ArgIter) -> (r: bool)
+where M: Manager<EdgeTag = EdgeTag, Terminal = BCDDTerminal> + HasApplyCache<M, BCDDOp>, M::InnerNode: HasLevel,
+//@spec
+    requires okc(edge.cv(), manager.num_levels_spec()), args.done() == Seq::<(u32, bool)>::empty(),
+        // documented panic otherwise
+        forall|i: int| 0 <= i < args.all().len() ==> (#[trigger] args.all()[i].0 as int) < manager.num_levels_spec(),
+    ensures ceval_post(edge.cv(), args.all(), vl(manager), manager.num_levels_spec(), r),
+//@loop
+    invariant
+        iter__0.all() == args.all(), iter__0.done().len() <= iter__0.all().len(),
+        forall|i: int| 0 <= i < iter__0.all().len() ==> (#[trigger] iter__0.all()[i].0 as int) < manager.num_levels_spec(),
+        choices.bits@.len() == manager.num_levels_spec(),
+        forall|l: int| !(#[trigger] choices.spec_contains(l)) == aenv(iter__0.done(), vl(manager), all_true())(l),
+    ensures
+        iter__0.all() == args.all(),
+        forall|l: int| !(#[trigger] choices.spec_contains(l)) == aenv(iter__0.all(), vl(manager), all_true())(l),
+    decreases iter__0.all().len() - iter__0.done().len(),
+//@end
+//@fn file=crates/oxidd-rules-bdd/src/complement_edge/apply_rec.rs path=mod:mt/impl:BooleanFunction~for~BCDDFunctionMT<F>/fn:eval_edge name=eval_edge__mt props=C02 ret=r subst_text=BCDDFunction::<F>::::=
+//@header
+fn eval_edge__mt<M>(manager: &M, edge: &M::Edge, args: ArgIter) -> (r: bool)
+where M: Manager<EdgeTag = EdgeTag, Terminal = BCDDTerminal> + HasApplyCache<M, BCDDOp>, M::InnerNode: HasLevel,
+//@spec
+    requires okc(edge.cv(), manager.num_levels_spec()), args.done() == Seq::<(u32, bool)>::empty(),
+        // documented panic otherwise
+        forall|i: int| 0 <= i < args.all().len() ==> (#[trigger] args.all()[i].0 as int) < manager.num_levels_spec(),
+    ensures ceval_post(edge.cv(), args.all(), vl(manager), manager.num_levels_spec(), r),
+//@end
+} // mod apply_rec_e
 
 mod apply_rec_q {
 use super::*;
@@ -1869,6 +2178,14 @@ where M: Manager<EdgeTag = EdgeTag, Terminal = BCDDTerminal> + HasApplyCache<M, 
     requires edge_ok::<M::Edge>(), okc(root.cv(), manager.num_levels_spec()), okc(vars.cv(), manager.num_levels_spec()),
     ensures res is Ok ==> quant_post(O_AND, root.cv(), vars.cv(), manager.num_levels_spec(), res->Ok_0.cv()),
 //@end
+//@fn file=crates/oxidd-rules-bdd/src/complement_edge/apply_rec.rs path=mod:mt/impl:BooleanFunctionQuant~for~BCDDFunctionMT<F>/fn:forall_edge name=forall_edge__mt props=C04
+//@header
+fn forall_edge__mt<M>(manager: &M, root: &M::Edge, vars: &M::Edge) -> (res: AllocResult<M::Edge>)
+where M: Manager<EdgeTag = EdgeTag, Terminal = BCDDTerminal> + HasApplyCache<M, BCDDOp>, M::InnerNode: HasLevel,
+//@spec
+    requires edge_ok::<M::Edge>(), okc(root.cv(), manager.num_levels_spec()), okc(vars.cv(), manager.num_levels_spec()),
+    ensures res is Ok ==> quant_post(O_AND, root.cv(), vars.cv(), manager.num_levels_spec(), res->Ok_0.cv()),
+//@end
 //@fn file=crates/oxidd-rules-bdd/src/complement_edge/apply_rec.rs path=impl:BooleanFunctionQuant~for~BCDDFunction<F>/fn:exists_edge props=C04
 //@header
 fn exists_edge<M>(manager: &M, root: &M::Edge, vars: &M::Edge) -> (res: AllocResult<M::Edge>)
@@ -1877,9 +2194,25 @@ where M: Manager<EdgeTag = EdgeTag, Terminal = BCDDTerminal> + HasApplyCache<M, 
     requires edge_ok::<M::Edge>(), okc(root.cv(), manager.num_levels_spec()), okc(vars.cv(), manager.num_levels_spec()),
     ensures res is Ok ==> quant_post(O_OR, root.cv(), vars.cv(), manager.num_levels_spec(), res->Ok_0.cv()),
 //@end
+//@fn file=crates/oxidd-rules-bdd/src/complement_edge/apply_rec.rs path=mod:mt/impl:BooleanFunctionQuant~for~BCDDFunctionMT<F>/fn:exists_edge name=exists_edge__mt props=C04
+//@header
+fn exists_edge__mt<M>(manager: &M, root: &M::Edge, vars: &M::Edge) -> (res: AllocResult<M::Edge>)
+where M: Manager<EdgeTag = EdgeTag, Terminal = BCDDTerminal> + HasApplyCache<M, BCDDOp>, M::InnerNode: HasLevel,
+//@spec
+    requires edge_ok::<M::Edge>(), okc(root.cv(), manager.num_levels_spec()), okc(vars.cv(), manager.num_levels_spec()),
+    ensures res is Ok ==> quant_post(O_OR, root.cv(), vars.cv(), manager.num_levels_spec(), res->Ok_0.cv()),
+//@end
 //@fn file=crates/oxidd-rules-bdd/src/complement_edge/apply_rec.rs path=impl:BooleanFunctionQuant~for~BCDDFunction<F>/fn:unique_edge props=C04
 //@header
 fn unique_edge<M>(manager: &M, root: &M::Edge, vars: &M::Edge) -> (res: AllocResult<M::Edge>)
+where M: Manager<EdgeTag = EdgeTag, Terminal = BCDDTerminal> + HasApplyCache<M, BCDDOp>, M::InnerNode: HasLevel,
+//@spec
+    requires edge_ok::<M::Edge>(), okc(root.cv(), manager.num_levels_spec()), okc(vars.cv(), manager.num_levels_spec()),
+    ensures res is Ok ==> quant_post(O_XOR, root.cv(), vars.cv(), manager.num_levels_spec(), res->Ok_0.cv()),
+//@end
+//@fn file=crates/oxidd-rules-bdd/src/complement_edge/apply_rec.rs path=mod:mt/impl:BooleanFunctionQuant~for~BCDDFunctionMT<F>/fn:unique_edge name=unique_edge__mt props=C04
+//@header
+fn unique_edge__mt<M>(manager: &M, root: &M::Edge, vars: &M::Edge) -> (res: AllocResult<M::Edge>)
 where M: Manager<EdgeTag = EdgeTag, Terminal = BCDDTerminal> + HasApplyCache<M, BCDDOp>, M::InnerNode: HasLevel,
 //@spec
     requires edge_ok::<M::Edge>(), okc(root.cv(), manager.num_levels_spec()), okc(vars.cv(), manager.num_levels_spec()),
@@ -1924,6 +2257,14 @@ where M: Manager<EdgeTag = EdgeTag, Terminal = BCDDTerminal> + HasApplyCache<M, 
     requires edge_ok::<M::Edge>(), okc(lhs.cv(), manager.num_levels_spec()), okc(rhs.cv(), manager.num_levels_spec()), okc(vars.cv(), manager.num_levels_spec()),
     ensures res is Ok ==> apply_quant_post(O_AND, bo_code(op), lhs.cv(), rhs.cv(), vars.cv(), manager.num_levels_spec(), res->Ok_0.cv()),
 //@end
+//@fn file=crates/oxidd-rules-bdd/src/complement_edge/apply_rec.rs path=mod:mt/impl:BooleanFunctionQuant~for~BCDDFunctionMT<F>/fn:apply_forall_edge name=apply_forall_edge__mt props=C04
+//@header
+fn apply_forall_edge__mt<M>(manager: &M, op: BooleanOperator, lhs: &M::Edge, rhs: &M::Edge, vars: &M::Edge) -> (res: AllocResult<M::Edge>)
+where M: Manager<EdgeTag = EdgeTag, Terminal = BCDDTerminal> + HasApplyCache<M, BCDDOp>, M::InnerNode: HasLevel,
+//@spec
+    requires edge_ok::<M::Edge>(), okc(lhs.cv(), manager.num_levels_spec()), okc(rhs.cv(), manager.num_levels_spec()), okc(vars.cv(), manager.num_levels_spec()),
+    ensures res is Ok ==> apply_quant_post(O_AND, bo_code(op), lhs.cv(), rhs.cv(), vars.cv(), manager.num_levels_spec(), res->Ok_0.cv()),
+//@end
 //@fn file=crates/oxidd-rules-bdd/src/complement_edge/apply_rec.rs path=impl:BooleanFunctionQuant~for~BCDDFunction<F>/fn:apply_exists_edge props=C04
 //@header
 fn apply_exists_edge<M>(manager: &M, op: BooleanOperator, lhs: &M::Edge, rhs: &M::Edge, vars: &M::Edge) -> (res: AllocResult<M::Edge>)
@@ -1932,9 +2273,25 @@ where M: Manager<EdgeTag = EdgeTag, Terminal = BCDDTerminal> + HasApplyCache<M, 
     requires edge_ok::<M::Edge>(), okc(lhs.cv(), manager.num_levels_spec()), okc(rhs.cv(), manager.num_levels_spec()), okc(vars.cv(), manager.num_levels_spec()),
     ensures res is Ok ==> apply_quant_post(O_OR, bo_code(op), lhs.cv(), rhs.cv(), vars.cv(), manager.num_levels_spec(), res->Ok_0.cv()),
 //@end
+//@fn file=crates/oxidd-rules-bdd/src/complement_edge/apply_rec.rs path=mod:mt/impl:BooleanFunctionQuant~for~BCDDFunctionMT<F>/fn:apply_exists_edge name=apply_exists_edge__mt props=C04
+//@header
+fn apply_exists_edge__mt<M>(manager: &M, op: BooleanOperator, lhs: &M::Edge, rhs: &M::Edge, vars: &M::Edge) -> (res: AllocResult<M::Edge>)
+where M: Manager<EdgeTag = EdgeTag, Terminal = BCDDTerminal> + HasApplyCache<M, BCDDOp>, M::InnerNode: HasLevel,
+//@spec
+    requires edge_ok::<M::Edge>(), okc(lhs.cv(), manager.num_levels_spec()), okc(rhs.cv(), manager.num_levels_spec()), okc(vars.cv(), manager.num_levels_spec()),
+    ensures res is Ok ==> apply_quant_post(O_OR, bo_code(op), lhs.cv(), rhs.cv(), vars.cv(), manager.num_levels_spec(), res->Ok_0.cv()),
+//@end
 //@fn file=crates/oxidd-rules-bdd/src/complement_edge/apply_rec.rs path=impl:BooleanFunctionQuant~for~BCDDFunction<F>/fn:apply_unique_edge props=C04
 //@header
 fn apply_unique_edge<M>(manager: &M, op: BooleanOperator, lhs: &M::Edge, rhs: &M::Edge, vars: &M::Edge) -> (res: AllocResult<M::Edge>)
+where M: Manager<EdgeTag = EdgeTag, Terminal = BCDDTerminal> + HasApplyCache<M, BCDDOp>, M::InnerNode: HasLevel,
+//@spec
+    requires edge_ok::<M::Edge>(), okc(lhs.cv(), manager.num_levels_spec()), okc(rhs.cv(), manager.num_levels_spec()), okc(vars.cv(), manager.num_levels_spec()),
+    ensures res is Ok ==> apply_quant_post(O_XOR, bo_code(op), lhs.cv(), rhs.cv(), vars.cv(), manager.num_levels_spec(), res->Ok_0.cv()),
+//@end
+//@fn file=crates/oxidd-rules-bdd/src/complement_edge/apply_rec.rs path=mod:mt/impl:BooleanFunctionQuant~for~BCDDFunctionMT<F>/fn:apply_unique_edge name=apply_unique_edge__mt props=C04
+//@header
+fn apply_unique_edge__mt<M>(manager: &M, op: BooleanOperator, lhs: &M::Edge, rhs: &M::Edge, vars: &M::Edge) -> (res: AllocResult<M::Edge>)
 where M: Manager<EdgeTag = EdgeTag, Terminal = BCDDTerminal> + HasApplyCache<M, BCDDOp>, M::InnerNode: HasLevel,
 //@spec
     requires edge_ok::<M::Edge>(), okc(lhs.cv(), manager.num_levels_spec()), okc(rhs.cv(), manager.num_levels_spec()), okc(vars.cv(), manager.num_levels_spec()),
@@ -1984,6 +2341,14 @@ broadcast use {ce_core, ce_tv, crestrict_lemmas};
 //@fn file=crates/oxidd-rules-bdd/src/complement_edge/apply_rec.rs path=impl:BooleanFunction~for~BCDDFunction<F>/fn:restrict_edge props=C04
 //@header
 fn restrict_edge<M>(manager: &M, root: &M::Edge, vars: &M::Edge) -> (res: AllocResult<M::Edge>)
+where M: Manager<EdgeTag = EdgeTag, Terminal = BCDDTerminal> + HasApplyCache<M, BCDDOp>, M::InnerNode: HasLevel,
+//@spec
+    requires edge_ok::<M::Edge>(), okc(root.cv(), manager.num_levels_spec()), okc(vars.cv(), manager.num_levels_spec()),
+    ensures res is Ok ==> restrict_post(root.cv(), vars.cv(), manager.num_levels_spec(), res->Ok_0.cv()),
+//@end
+//@fn file=crates/oxidd-rules-bdd/src/complement_edge/apply_rec.rs path=mod:mt/impl:BooleanFunction~for~BCDDFunctionMT<F>/fn:restrict_edge name=restrict_edge__mt props=C04
+//@header
+fn restrict_edge__mt<M>(manager: &M, root: &M::Edge, vars: &M::Edge) -> (res: AllocResult<M::Edge>)
 where M: Manager<EdgeTag = EdgeTag, Terminal = BCDDTerminal> + HasApplyCache<M, BCDDOp>, M::InnerNode: HasLevel,
 //@spec
     requires edge_ok::<M::Edge>(), okc(root.cv(), manager.num_levels_spec()), okc(vars.cv(), manager.num_levels_spec()),
@@ -2053,6 +2418,18 @@ where M: Manager<EdgeTag = EdgeTag, Terminal = BCDDTerminal> + HasApplyCache<M, 
         res is Ok ==> forall|o: spec_fn(Tree, u32) -> bool| (forall|mm: &M, ee: &M::Edge, l: LevelNo, r: bool| #[trigger] choice.ensures((mm, ee, l), r) ==> r == o(tv(ee.cv()), l))
             ==> #[trigger] pick_follows(tv(edge.cv()), o, tv(res->Ok_0.cv())),
 //@end
+//@fn file=crates/oxidd-rules-bdd/src/complement_edge/apply_rec.rs path=mod:mt/impl:BooleanFunction~for~BCDDFunctionMT<F>/fn:pick_cube_dd_edge name=pick_cube_dd_edge__mt props=C13 subst_text=BCDDFunction::<F>::::=
+//@header
+fn pick_cube_dd_edge__mt<M>(manager: &M, edge: &M::Edge, choice: impl FnMut(&M, &M::Edge, LevelNo) -> bool) -> (res: AllocResult<M::Edge>)
+where M: Manager<EdgeTag = EdgeTag, Terminal = BCDDTerminal> + HasApplyCache<M, BCDDOp>, M::InnerNode: HasLevel,
+//@spec
+    requires edge_ok::<M::Edge>(), okc(edge.cv(), manager.num_levels_spec()),
+        forall|mm: &M, ee: &M::Edge, l: LevelNo| (tv(ee.cv()) matches Tree::Inner(k, a, b) && k == l && *a != ff() && *b != ff()) ==> #[trigger] choice.requires((mm, ee, l)),
+    ensures res is Ok ==> pick_ok(tv(edge.cv()), Tree::Leaf(true), tv(res->Ok_0.cv())) && okc(res->Ok_0.cv(), manager.num_levels_spec()),
+        // wherever the value is not forced it is the value returned by the caller's choice function
+        res is Ok ==> forall|o: spec_fn(Tree, u32) -> bool| (forall|mm: &M, ee: &M::Edge, l: LevelNo, r: bool| #[trigger] choice.ensures((mm, ee, l), r) ==> r == o(tv(ee.cv()), l))
+            ==> #[trigger] pick_follows(tv(edge.cv()), o, tv(res->Ok_0.cv())),
+//@end
 //@fn file=crates/oxidd-rules-bdd/src/complement_edge/apply_rec.rs path=impl:BooleanFunction~for~BCDDFunction<F>/fn:pick_cube_dd_set_edge hoist=inner>pick_cube_dd_set_edge__inner props=C13
 //@header
 fn pick_cube_dd_set_edge<M>(manager: &M, edge: &M::Edge, literal_set: &M::Edge) -> (res: AllocResult<M::Edge>)
@@ -2061,7 +2438,55 @@ where M: Manager<EdgeTag = EdgeTag, Terminal = BCDDTerminal> + HasApplyCache<M, 
     requires edge_ok::<M::Edge>(), okc(edge.cv(), manager.num_levels_spec()), okc(literal_set.cv(), manager.num_levels_spec()),
     ensures res is Ok ==> pick_ok(tv(edge.cv()), tv(literal_set.cv()), tv(res->Ok_0.cv())) && okc(res->Ok_0.cv(), manager.num_levels_spec()),
 //@end
+//@fn file=crates/oxidd-rules-bdd/src/complement_edge/apply_rec.rs path=mod:mt/impl:BooleanFunction~for~BCDDFunctionMT<F>/fn:pick_cube_dd_set_edge name=pick_cube_dd_set_edge__mt props=C13 subst_text=BCDDFunction::<F>::::=
+//@header
+fn pick_cube_dd_set_edge__mt<M>(manager: &M, edge: &M::Edge, literal_set: &M::Edge) -> (res: AllocResult<M::Edge>)
+where M: Manager<EdgeTag = EdgeTag, Terminal = BCDDTerminal> + HasApplyCache<M, BCDDOp>, M::InnerNode: HasLevel,
+//@spec
+    requires edge_ok::<M::Edge>(), okc(edge.cv(), manager.num_levels_spec()), okc(literal_set.cv(), manager.num_levels_spec()),
+    ensures res is Ok ==> pick_ok(tv(edge.cv()), tv(literal_set.cv()), tv(res->Ok_0.cv())) && okc(res->Ok_0.cv(), manager.num_levels_spec()),
+//@end
 } // mod apply_rec_p
+mod apply_rec_u {
+use super::*;
+use super::lib_rs::*;
+broadcast use {ce_core};
+// default method `BooleanFunction::cofactors_node` of oxidd-core, instantiated with BCDDRules::cofactor (proved above)
+pub fn rules_cofactor<'a, E: Edge<Tag = EdgeTag>, N: InnerNode<E>>(tag: EdgeTag, node: &'a N, n: usize) -> (r: Borrowed<'a, E>)
+    requires n < 2,
+    ensures r.cv() == cxor(if n == 0 { node.then_c() } else { node.else_c() }, tag.is_c()),
+{ BCDDRules::cofactor(tag, node, n) }
+//@fn file=crates/oxidd-core/src/function.rs path=trait:BooleanFunction/fn:cofactors_node ret=r props=C02,C13 subst_text=let~cofactor~=~<<Self::Manager<@Q@id>~as~Manager>::Rules~as~DiagramRules<_,~_,~_>>::cofactor;::=;;cofactor(tag::=rules_cofactor(tag
+//@header
+fn cofactors_node<'a, M>(tag: EdgeTag, node: &'a M::InnerNode) -> (r: (Borrowed<'a, M::Edge>, Borrowed<'a, M::Edge>))
+where M: Manager<EdgeTag = EdgeTag, Terminal = BCDDTerminal>,
+//@spec
+    ensures r.0.cv() == cxor(node.then_c(), tag.is_c()), r.1.cv() == cxor(node.else_c(), tag.is_c()),
+//@end
+/// ASSUMED: `sat_count_edge::<F64>` returns the exact model count (the floating-point path of sat_count_edge — scaled
+/// terminal value, MIN_EXP != 0 — is not verified; the integer path is, see sat_count_edge)
+#[verifier::external_body]
+fn sat_count_edge_f64<M: Manager<EdgeTag = EdgeTag, Terminal = BCDDTerminal>, S>(manager: &M, edge: &M::Edge, vars: LevelNo, cache: &mut SatCountCache<F64, S>) -> (res: F64)
+    requires okc(edge.cv(), vars as int),
+    ensures res.0.rv() == cnt(tv(edge.cv()), 0, vars as int) as real,
+{ unimplemented!() }
+// the choice closure of `pick_cube_uniform_edge` (rule R19): the then-branch is taken iff the uniform draw is below
+// #models(then-cofactor) / (#models(then-cofactor) + #models(else-cofactor)), cofactors taken THROUGH the edge's complement tag
+//@fn file=crates/oxidd-core/src/function.rs path=trait:BooleanFunction/fn:pick_cube_uniform_edge name=pick_cube_uniform_edge__choice closure=0 cparams=manager,~edge,~_ ret=r props=C13 selfcall=Self::cofactors_node(>cofactors_node::<M>( subst_text=Self::sat_count_edge(::=sat_count_edge_f64(;;rng.generate::<f64>()::=rng.generate_f64()
+//@header
+fn pick_cube_uniform_edge__choice<M, S>(manager: &M, edge: &M::Edge, vars: LevelNo, cache: &mut SatCountCache<F64, S>, rng: &mut Rng) -> (r: bool)
+where M: Manager<EdgeTag = EdgeTag, Terminal = BCDDTerminal>, M::InnerNode: HasLevel,
+//@spec
+    requires edge.cv().node is Inner, okc(edge.cv(), manager.num_levels_spec()), vars as int == manager.num_levels_spec(),
+    ensures ({
+        let t = cxor(cthen(edge.cv()), neg(edge.cv()));
+        let e = cxor(celse(edge.cv()), neg(edge.cv()));
+        let tc = cnt(tv(t), 0, vars as int) as real;
+        let ec = cnt(tv(e), 0, vars as int) as real;
+        r == (old(rng).draw() < fdiv(tc, tc + ec))
+    }),
+//@end
+} // mod apply_rec_u
 
 mod apply_rec_c {
 use super::*;
@@ -2077,6 +2502,13 @@ fn sat_count_edge__inner<M: Manager<EdgeTag = EdgeTag, Terminal = BCDDTerminal>,
 //@fn file=crates/oxidd-rules-bdd/src/complement_edge/apply_rec.rs path=impl:BooleanFunction~for~BCDDFunction<F>/fn:sat_count_edge hoist=inner>sat_count_edge__inner props=C12
 //@header
 fn sat_count_edge<M: Manager<EdgeTag = EdgeTag, Terminal = BCDDTerminal>, N: SatCountNumber, S>(manager: &M, edge: &M::Edge, vars: LevelNo, cache: &mut SatCountCache<N, S>) -> (res: N)
+//@spec
+    requires num_ok::<N>(), N::MIN_EXP == 0, okc(edge.cv(), vars as int),
+    ensures res.nv() == cnt(tv(edge.cv()), 0, vars as int),
+//@end
+//@fn file=crates/oxidd-rules-bdd/src/complement_edge/apply_rec.rs path=mod:mt/impl:BooleanFunction~for~BCDDFunctionMT<F>/fn:sat_count_edge name=sat_count_edge__mt props=C12 subst_text=BCDDFunction::<F>::::=
+//@header
+fn sat_count_edge__mt<M: Manager<EdgeTag = EdgeTag, Terminal = BCDDTerminal>, N: SatCountNumber, S>(manager: &M, edge: &M::Edge, vars: LevelNo, cache: &mut SatCountCache<N, S>) -> (res: N)
 //@spec
     requires num_ok::<N>(), N::MIN_EXP == 0, okc(edge.cv(), vars as int),
     ensures res.nv() == cnt(tv(edge.cv()), 0, vars as int),
